@@ -171,3 +171,14 @@ pub mod c13;
 pub mod c27;
 pub mod c32;
 pub mod c04;
+pub mod c12;
+pub mod c11;
+pub mod c14;
+pub mod c23;
+pub mod c24;
+pub mod c26;
+pub mod c20;
+pub mod c21;
+pub mod c15;
+pub mod c19;
+pub mod bundle;
